@@ -441,7 +441,7 @@ def run_bounded(script, label, clause, python='/venv/bin/python'):
         t0 = time.time()
         tier = opts.get('tier', 'quick')
         p = subprocess.run([python, os.path.join(HERE, 'bounded', script), tier], capture_output=True, text=True,
-                           timeout=3000, env=dict(os.environ, PYTHONPATH='/repo', VERIF_SEED=str(opts.get('seed', 0))))
+                           timeout=3000, env=dict(os.environ, PYTHONPATH=contract.REPO, VERIF_SEED=str(opts.get('seed', 0))))
         out = p.stdout.strip().splitlines()
         if p.returncode not in (0, 1):
             res.errors.append('bounded %s crashed: %s' % (script, (p.stdout + p.stderr)[-500:]))
